@@ -142,7 +142,7 @@ def features(case, data=None, delimited=True):
 
 
 # ============================================================================ rdflib
-RDFLIB_ENTRIES = ["serialize", "serialize_dest", "stream_frames", "flat_to_file", "grouped_to_file",
+RDFLIB_ENTRIES = ["serialize", "serialize_dest", "serialize_stream_only", "stream_frames", "flat_to_file", "grouped_to_file",
                   "serialize_default", "flat_to_file_default", "grouped_to_file_default", "serialize_path"]
 GROUPED_FOR = {"TRIPLES": [3, 13], "QUADS": [4, 14, 114], "GRAPHS": [4, 14, 114]}
 
@@ -161,7 +161,7 @@ def rdflib_write_case(draw, max_len=14, phys=None):
     flat_logical = 1 if phys == "TRIPLES" else 2
     delimited = True
     logical = flat_logical
-    if entry in ("serialize", "serialize_dest", "stream_frames"):
+    if entry in ("serialize", "serialize_dest", "serialize_stream_only", "stream_frames"):
         delimited = draw(st.integers(0, 3)) != 0
     if delimited and entry != "flat_to_file" and draw(st.booleans()):
         logical = draw(st.sampled_from(GROUPED_FOR[phys]))
@@ -250,6 +250,11 @@ def write_rdflib(case):
             out = [type(x)(*[rdflib.URIRef(str(t)) if type(t) is rdflib.URIRef else t for t in x]) for x in out]
         return out
 
+    if entry == "serialize_stream_only":
+        # a pre-built stream object and nothing else: its own options decide flow and framing
+        g = rdflib_container(stmts, phys)
+        stream = pyj.make_stream(case, "rdflib")
+        return g.serialize(format="jelly", encoding="jelly", stream=stream), case["delimited"]
     if entry in ("serialize", "serialize_dest"):
         g = rdflib_container(stmts, phys)
         stream = pyj.make_stream(case, "rdflib")
